@@ -280,6 +280,92 @@ def gen_scene(rng, small):
     return kind, data
 
 
+READS = ['slices', 'areas', 'bbox', 'labels', 'nlabels', 'max_label', 'is_consecutive', 'missing_labels',
+         'background_area']
+
+
+def _consec(arr, start=1):
+    vals = [int(v) for v in np.unique(arr) if v]
+    lut = {v: i + start for i, v in enumerate(vals)}
+    out = np.zeros_like(arr)
+    for v, n in lut.items():
+        out[arr == v] = n
+    return out
+
+
+def gen_history(rng, seg):
+    """A short random history of public SegmentationImage operations applied to the input image before
+    it is deblended, with a plain-numpy simulation of the resulting label array (used only to choose
+    valid later operations and labels= arguments; the oracles read the real array)."""
+    top = int(np.iinfo(seg.dtype).max)
+    arr = seg.astype(np.int64) if seg.dtype != np.uint64 else seg.astype(object).astype(np.int64)
+    ops = []
+    for _ in range(rng.randint(1, 4)):
+        labs = [int(v) for v in np.unique(arr) if v]
+        if not labs:
+            break
+        kind = rng.choice(['read', 'reassign', 'reassign', 'reassign', 'reassign', 'remove', 'keep', 'consec', 'copy'])
+        if kind not in ('read', 'copy') and rng.random() < 0.7:
+            # the general recipe for stale caches: fill a cache, then mutate, then use
+            ops.append(['read', rng.choice(READS)])
+        if kind == 'read':
+            ops.append(['read', rng.choice(READS)])
+        elif kind == 'copy':
+            ops.append(['copy'])
+        elif kind == 'reassign':
+            olds = rng.sample(labs, 1 if rng.random() < 0.75 or len(labs) < 2 else 2)
+            unused = [v for v in list(range(1, max(labs) + 1)) + [max(labs) + k for k in (1, 2, 5)]
+                      if v not in labs and v <= top]
+            pool = (unused * 3 + labs) if unused else labs
+            new = rng.choice(pool)
+            relabel = rng.random() < 0.25
+            ops.append(['reassign', olds, new, relabel])
+            arr = np.where(np.isin(arr, olds), new, arr)
+            if relabel:
+                arr = _consec(arr)
+        elif kind in ('remove', 'keep'):
+            if len(labs) < 2:
+                continue
+            sel = rng.sample(labs, rng.randint(1, len(labs) - 1))
+            relabel = rng.random() < 0.3
+            ops.append([kind, sel, relabel])
+            gone = sel if kind == 'remove' else [v for v in labs if v not in sel]
+            arr = np.where(np.isin(arr, gone), 0, arr)
+            if relabel:
+                arr = _consec(arr)
+        else:
+            start = rng.choice([1, 1, 2, 5])
+            if start + len(labs) - 1 > top:
+                continue
+            ops.append(['consec', start])
+            arr = _consec(arr, start)
+    return ops, arr
+
+
+def apply_history(segm, ops):
+    """Replay the operations on the real object (public API only)."""
+    for op in ops or []:
+        try:
+            with warnings.catch_warnings():
+                warnings.simplefilter('ignore')
+                if op[0] == 'read':
+                    getattr(segm, op[1])
+                elif op[0] == 'copy':
+                    segm = segm.copy()
+                elif op[0] == 'reassign':
+                    segm.reassign_labels(op[1], op[2], relabel=op[3]) if len(op[1]) > 1 else \
+                        segm.reassign_label(op[1][0], op[2], relabel=op[3])
+                elif op[0] == 'remove':
+                    segm.remove_labels(op[1], relabel=op[2])
+                elif op[0] == 'keep':
+                    segm.keep_labels(op[1], relabel=op[2])
+                elif op[0] == 'consec':
+                    segm.relabel_consecutive(start_label=op[1])
+        except Exception:
+            break
+    return segm
+
+
 def bump_scene(rng):
     """A faint parent with one real peak next to a bright TOUCHING neighbour that lies (partly) inside the
     parent's bounding box, as in hand-edited / merged maps: the data are discontinuous across the common
@@ -453,6 +539,16 @@ def gen_case(rng, small=False):
         seg = np.where(seg == tgt, top - rng.choice([0, 1, 2, 3]), seg)
         flavour.append('dtype-top')
     seg = seg.astype(dtype)
+    # the image the user deblends may have gone through label operations before
+    seg_input, history = seg, []
+    if rng.random() < (0.4 if kind in ('touch', 'bump', 'interlock') or 'cut-into-touching-pieces' in flavour
+                       or 'second-pass' in flavour else 0.15):
+        history, after = gen_history(rng, seg)
+        if any(v for v in np.unique(after)):
+            seg = after.astype(dtype)          # what the label array should be when deblend_sources is called
+            flavour.append('history')
+        else:
+            history = []
     labs = [int(v) for v in np.unique(seg) if v]
     # deblend arguments
     npix = rng.choice([1, 2, 2, 3, 3, 5, 8])
@@ -473,6 +569,24 @@ def gen_case(rng, small=False):
         data = data.copy()
         data[iy, ix] = rng.choice([0.0, -0.5, -2.0])
         flavour.append('nonpos-pixel-in-one-segment')
+    if rng.random() < (0.35 if kind in ('touch', 'bump', 'interlock') else 0.15):
+        # non-finite pixels inside segments (allowed), preferably inside ANOTHER segment's bounding box
+        data = np.array(data, float)
+        boxes = {}
+        for l in labs:
+            ys, xs = np.nonzero(seg == l)
+            boxes[l] = (ys.min(), ys.max(), xs.min(), xs.max())
+        inside = [(int(py), int(px)) for (py, px) in np.argwhere(seg > 0)
+                  if any(l != seg[py, px] and b[0] <= py <= b[1] and b[2] <= px <= b[3] for l, b in boxes.items())]
+        allp = [(int(py), int(px)) for (py, px) in np.argwhere(seg > 0)]
+        for _ in range(rng.randint(1, 3)):
+            py, px = rng.choice(inside) if inside and rng.random() < 0.75 else rng.choice(allp)
+            val = rng.choice([np.nan, np.nan, np.nan, np.inf, -np.inf])
+            block = [(py, px)] if rng.random() < 0.6 else [(py, px), (py, px + 1), (py + 1, px), (py + 1, px + 1)]
+            for (qy, qx) in block:
+                if qy < ny and qx < nx and seg[qy, qx] == seg[py, px]:
+                    data[qy, qx] = val
+        flavour.append('nonfinite-pixels-in-segments')
     if kind == 'bump' and rng.random() < 0.9:
         npix = npix_bump
         nlevels = rng.choice([8, 16, 32, 32])
@@ -541,11 +655,11 @@ def gen_case(rng, small=False):
     if rng.random() < 0.12:
         data = np.asarray(data).astype(np.float32)
         flavour.append('float32-input')
-    return dict(kind=kind, flavour=flavour, data=data, seg=seg, npix=npix, nlevels=nlevels,
+    return dict(kind=kind, flavour=flavour, data=data, seg=seg_input, history=history, npix=npix, nlevels=nlevels,
                 contrast=contrast, mode=mode, conn=conn, relabel=relabel, labels=labels,
-                redeblend=({'npixels': rng.choice([1, 2, npix]), 'nlevels': rng.choice([4, 8, 32]),
+                redeblend=False if history else ({'npixels': rng.choice([1, 2, npix]), 'nlevels': rng.choice([4, 8, 32]),
                             'mode': rng.choice(['linear', 'exponential', 'sinh'])}
-                           if rng.random() < 0.10 else False))
+                                             if rng.random() < 0.10 else False))
 
 
 def directed_cases():
@@ -649,7 +763,7 @@ def make_segm(case):
                                        progress_bar=False)
         except Exception:
             segm = SegmentationImage(case['seg'].copy())
-    return segm
+    return apply_history(segm, case.get('history'))
 
 
 def call_impl(case, segm, nproc=1):
@@ -659,6 +773,8 @@ def call_impl(case, segm, nproc=1):
         labels = list(labels)
     data = case['data'].copy()
     before = np.array(segm.data).copy()
+    w0 = (getattr(segm, 'info', None) or {}).get('warnings', {})
+    in_info = [[int(v) for v in w0.get(k, {}).get('input_labels', [])] for k in ('nonposmin', 'nmarkers')]
     try:
         with warnings.catch_warnings():
             warnings.simplefilter('ignore')
@@ -669,11 +785,12 @@ def call_impl(case, segm, nproc=1):
         res = {'ok': observe(r), 'shares_memory': bool(np.shares_memory(r.data, segm.data))}
     except Exception as e:   # every exception class is an observable
         res = {'exc': type(e).__name__, 'msg': str(e)[:200]}
+    res['in_info'] = in_info
     after = np.array(segm.data)
     res['input_after'] = after.astype(np.int64).tolist() if after.dtype != np.uint64 else \
         after.astype(object).astype(int).tolist()
     res['input_unchanged'] = bool(after.dtype == before.dtype and np.array_equal(after, before))
-    res['data_unchanged'] = bool(np.array_equal(data, case['data'], equal_nan=True))
+    res['data_unchanged'] = bool(data.dtype == case['data'].dtype and data.tobytes() == case['data'].tobytes())
     return res
 
 
@@ -726,6 +843,10 @@ def to_coq(case, seg_arr, in_map, tab, nproc, order, res):
         ex = Raw(f'(XErr {ERR_CODES.get(res["exc"], 50)})')
     else:
         o = res['ok']
+        if case['contrast'] == 1 and [o['nonposmin'], o['nmarkers']] == res.get('in_info'):
+            # the copy of the input carries the input's own .info (checked by the oracle); the model's
+            # warning lists are those of THIS call
+            o = dict(o, nonposmin=[], nmarkers=[])
         ex = Raw('(XOk ' + coq((Raw(img_coq(np.array(o['data'], dtype=object).reshape(ny, nx))),
                                 o['labels'], [(k, v) for k, v in o['inverse_map']],
                                 o['deblended_labels'], [(k, v) for k, v in o['labels_map']],
@@ -805,7 +926,8 @@ def oracle(case, seg_arr, in_map, tab, res):
         return bad
     out = np.array(o['data'], dtype=object).astype(int).reshape(seg.shape)
     if case['contrast'] == 1:
-        if not np.array_equal(out, seg) or o['inverse_map'] != [[k, v] for k, v in in_map]:
+        if not np.array_equal(out, seg) or o['inverse_map'] != [[k, v] for k, v in in_map] \
+                or [o['nonposmin'], o['nmarkers']] != res.get('in_info', [[], []]):
             bad.append(('deblend_sources:contrast1-not-identity', 'contrast=1 does not return the input unchanged'))
         if res.get('shares_memory'):
             bad.append(('deblend_sources:contrast1-alias', 'contrast=1 returns an array sharing memory with the input'))
@@ -900,7 +1022,8 @@ def _outside(case, l, fill, seed, keep_others):
     seg = case['seg']
     d = np.array(case['data'], dtype=case['data'].dtype)
     m = seg == l
-    top = float(np.max(d[m]))
+    fin = d[m][np.isfinite(d[m])]
+    top = float(np.max(fin)) if fin.size else 1.0
     if fill == 'zero':
         other = np.zeros(d.shape)
     elif fill == 'bright':
@@ -917,7 +1040,7 @@ def isolation(case, picks, variants):
     """The markers and the watershed of a source are restricted to its own mask: what happens to parent
     l depends on the data inside l's mask only.  variants = [(fill, seed, keep_others)]."""
     bad = []
-    if case.get('redeblend'):
+    if case.get('redeblend') or case.get('history'):
         return bad
     for l in picks:
         ref = _pattern(case, [l], l)
@@ -936,6 +1059,22 @@ def isolation(case, picks, variants):
     return bad
 
 
+def fresh_equivalence(case, seg_arr, res):
+    """The result is a function of the label ARRAY: an image that went through label operations must be
+    deblended exactly like a fresh SegmentationImage built from its current array."""
+    from photutils.segmentation import SegmentationImage
+    if not case.get('history') or case['contrast'] == 1:
+        return []
+    res2 = call_impl(case, SegmentationImage(seg_arr.copy()), 1)
+    a, b = strip_res(res), strip_res(res2)
+    a.pop('in_info', None), b.pop('in_info', None)
+    if a != b:
+        return [('deblend_sources:depends-on-cached-attributes',
+                 f'after the label operations {case["history"]} the image is deblended differently from a fresh '
+                 'SegmentationImage holding the same label array')]
+    return []
+
+
 # --------------------------------------------------------------------------
 def describe(case):
     d = case['data']
@@ -945,7 +1084,7 @@ def describe(case):
             'contrast': case['contrast'], 'mode': case['mode'], 'connectivity': int(case['conn']),
             'relabel': bool(case['relabel']),
             'labels': case['labels'] if case['labels'] is None or isinstance(case['labels'], list) else int(case['labels']),
-            'redeblend': case.get('redeblend', False) or False}
+            'redeblend': case.get('redeblend', False) or False, 'history': case.get('history') or []}
 
 
 def undescribe(c):
@@ -953,7 +1092,7 @@ def undescribe(c):
                 seg=np.array(c['seg'], dtype=object).astype(c['dtype']),
                 npix=c['npixels'], nlevels=c['nlevels'], contrast=c['contrast'], mode=c['mode'],
                 conn=c['connectivity'], relabel=c['relabel'], labels=c['labels'],
-                redeblend=c.get('redeblend', False))
+                redeblend=c.get('redeblend', False), history=c.get('history') or [])
 
 
 def run_one(case, nproc=1, order_fn=None):
@@ -991,7 +1130,10 @@ def run(ctx):
         'bounding boxes, compact groups whose segments are cut into touching pieces (Voronoi cells / stripes: 4- and '
         '8-adjacent neighbours inside each other\'s bounding boxes, slivers smaller than npixels next to bright '
         'neighbours), outputs of an earlier deblend_sources pass fed back in (fresh image or the object itself, '
-        'different npixels/contrast/labels), faint parents with a bump of fewer / exactly / more than npixels pixels '
+        'different npixels/contrast/labels), images that went through a short random history of public label '
+        'operations first (reads of slices/areas/bbox, reassign_label(s) to unused / used numbers with rank change, '
+        'remove/keep labels, relabel_consecutive, copy), NaN / +-inf pixels inside segments and inside other '
+        'segments\' bounding boxes, faint parents with a bump of fewer / exactly / more than npixels pixels '
         'next to a bright touching neighbour inside their bounding box (discontinuous data, as in edited maps), clusters, '
         'the same scenes on pedestals 0/1e3/1e5/1e7 with amplitudes 1/0.1/0.01, scaled by 2^+-40, float32 inputs, '
         'plateaus, ridges with saddles, noise, hand-made segmentations incl. disconnected parents) -> '
@@ -1069,6 +1211,11 @@ def run(ctx):
         ctx.stat('result', res.get('exc') or ('deblended' if res['ok']['inverse_map'] else 'nothing-deblended'))
         if 'ok' in res:
             ctx.stat('parents_deblended', str(len(res['ok']['inverse_map'])))
+        for sig, msg in fresh_equivalence(case, meta[-1][1], res):
+            ctx.violation(sig, msg, {'case': describe(case), 'nproc': 1, 'order': [], 'impl': strip_res(res),
+                                     'cmd': 'bin/check C06 --replay <this file>'})
+        if case.get('history'):
+            ctx.support('oracle:history-image==fresh-image-of-same-array')
         # per-source independence (labels alone / all together / shuffled), on valid calls
         if 'ok' in res and case['contrast'] != 1 and (quick is False or ctx.rng.random() < 0.5):
             seg_now = meta[-1][1]
@@ -1082,7 +1229,7 @@ def run(ctx):
                 for sig, msg, detail in independence(case, picks, [lab, sh, list(reversed(lab))]):
                     ctx.violation(sig, msg, detail)
                 ctx.support('oracle:per-source-independence', len(picks))
-            if big and not case.get('redeblend') and len(np.unique(seg_now)) > 1:
+            if big and not case.get('redeblend') and not case.get('history') and len(np.unique(seg_now)) > 1:
                 pick = ctx.rng.choice(big)
                 variants = [(ctx.rng.choice(['zero', 'bright', 'random']), ctx.rng.randrange(10 ** 6), True),
                             (ctx.rng.choice(['zero', 'bright', 'random']), ctx.rng.randrange(10 ** 6), False)]
@@ -1219,6 +1366,7 @@ def replay(obj):
     if r.get('independence'):
         ind = r['independence']
         viol += [(sg_, msg) for sg_, msg, _ in independence(case, [ind['label']], [ind['labels']])]
+    viol += fresh_equivalence(case, seg_arr, res)
     if r.get('isolation'):
         iso = r['isolation']
         viol += [(sg_, msg) for sg_, msg, _ in
